@@ -528,6 +528,8 @@ def _r5(ctx):
     for n in walk_no_nested(w):
         if isinstance(n, ast.For) and isinstance(n.iter, ast.List) and "coordinates" in src(n.iter):
             names = const(n.iter)
+        if isinstance(n, ast.Dict) and any(const(k) == "coordinates" for k in n.keys):
+            names = [const(k) for k in n.keys]
     rnames = {const(n.args[0]) for n in ast.walk(r) if isinstance(n, ast.Call) and call_name(n) == "get_field" and n.args}
     for v in ("coordinates", "time", "cell_lengths", "cell_angles"):
         ctx.decide(names is not None and v in names and v in rnames, "C01-R5", w, rel, cls, "node %s written and read" % v, "", "HDF5 node %s: written=%s read=%s" % (v, names and v in names, v in rnames))
